@@ -75,6 +75,11 @@ pub enum EnvKind {
 pub enum Mutation {
     Flip { pos: u32, bit: u8 },
     Set { pos: u32, val: u8 },
+    /// the same non-zero mask xored into two different bytes (`gap` bytes apart, wrapping): alterations that an
+    /// xor-folding or sum-folding comparison would not notice
+    Xor2 { pos: u32, gap: u16, mask: u8 },
+    /// two bytes exchanged
+    Swap { pos: u32, gap: u16 },
     Trunc { keep: u32 },
     Extend { extra: Hx },
     /// element `elem` of region `region` += delta (mod p), re-encoded canonically
@@ -317,6 +322,26 @@ fn apply_mutation(bytes: &mut Vec<u8>, m: &Mutation, regions: &[crate::inst::Reg
             let p = *pos as usize % bytes.len();
             bytes[p] = *val;
             (p, p + 1)
+        }
+        Mutation::Xor2 { pos, gap, mask } => {
+            if bytes.len() < 2 {
+                return None;
+            }
+            let p = *pos as usize % bytes.len();
+            let q = (p + 1 + *gap as usize % (bytes.len() - 1)) % bytes.len();
+            let m = if *mask == 0 { 1 } else { *mask };
+            bytes[p] ^= m;
+            bytes[q] ^= m;
+            (p.min(q), p.max(q) + 1)
+        }
+        Mutation::Swap { pos, gap } => {
+            if bytes.len() < 2 {
+                return None;
+            }
+            let p = *pos as usize % bytes.len();
+            let q = (p + 1 + *gap as usize % (bytes.len() - 1)) % bytes.len();
+            bytes.swap(p, q);
+            (p.min(q), p.max(q) + 1)
         }
         Mutation::Trunc { keep } => {
             if bytes.is_empty() {
@@ -667,6 +692,8 @@ impl<'p, 'c, 'cc, V: SimVdaf<VK>, A: Adapter<V>, const VK: usize> World<'p, 'c, 
                         self.ctx.fault(match m {
                             Mutation::Flip { .. } => "corrupt.bitflip",
                             Mutation::Set { .. } => "corrupt.setbyte",
+                            Mutation::Xor2 { .. } => "corrupt.xor_pair",
+                            Mutation::Swap { .. } => "corrupt.swap_bytes",
                             Mutation::Trunc { .. } => "corrupt.truncate",
                             Mutation::Extend { .. } => "corrupt.extend",
                             Mutation::FieldAdd { .. } => "corrupt.field_add",
